@@ -32,6 +32,7 @@ def run(ck):
     ck.rule("C18.R4", "log emission only until a collector is installed; at most one per path", floor=100)
     ck.rule("C18.R5", "`a collector has been installed` is sticky: set by both install paths, has_been_set() reads only that flag", floor=3)
     ck.rule("C18.R7", "normalized_metadata carries target, file, line and module path each from its own log field, independently", floor=1)
+    ck.rule("C18.R12", "with `log`, a close record is logged once per span, not once per handle", floor=1)
     ck.rule("C18.R11", "with `log`, the record text names every field: the value-set formatter writes each visited field, whatever its name", floor=2)
     ck.rule("C18.R10", "with `log`, enter/exit records come from Span::do_enter/do_exit: Instrumented polls through them for every span, enabled or not (as C17.R3)", floor=1)
     ck.rule("C18.R9", "EnteredSpan::exit exits once: the guard it consumes is left holding Span::none(), so its Drop has nothing to exit or log", floor=2)
@@ -51,6 +52,7 @@ def run(ck):
     from rules import C17
     C17.r3_lib(ck, Facts("log"), rid="C18.R10")
     r11(ck)
+    r12(ck)
 
 
 def r9(ck):
@@ -562,3 +564,28 @@ def r11(ck):
             ck.bad("C18.R11", key, where(b.raw["sp"]), "; ".join(bad[:2]) + ": a field is left out of (or repeated in) the log record's text", fn=b.path)
         else:
             ck.ok("C18.R11", key, fn=b.path)
+
+
+def r12(ck):
+    """Without a collector nobody counts span handles: Drop for Span logs `-- name;` whenever the handle has metadata. Span
+    is Clone, so dropping a clone of a span that is still open (and may be entered again) logs a close that did not
+    happen, and the real close is logged a second time. Decided structurally: a cloneable handle type whose Drop logs the
+    lifecycle record unconditionally (its only guards are `a collector was never installed` and `the span has metadata`)."""
+    L = Facts("log")
+    d = L.body("<tracing::span::Span as core::ops::drop::Drop>::drop")
+    if not ck.anchor("C18.R12", "Drop for Span [log]", d):
+        return
+    cloneable = any(i.get("trait") == "core::clone::Clone" and i["self_ty"] == "tracing::span::Span" for i in L.impls)
+    logs = [bb for bb, t in d.calls() if t["callee"].get("path") == "tracing::span::Span::log"]
+    key = "Drop for Span logs the close record once per span"
+    if not logs or not cloneable:
+        ck.ok("C18.R12", key, fn=d.path, detail="no close record / handle not cloneable")
+        return
+    g, _ = guards_of(d, logs[0])
+    counted = [t for t, v in g if any(k in t for k in ("try_close", "strong_count", "ref_count", "is_last"))]
+    if counted:
+        ck.ok("C18.R12", key, fn=d.path, detail=counted)
+    else:
+        ck.bad("C18.R12", "Drop for Span logs a close record for every handle", where(d.raw["sp"]),
+               "Span is Clone and its Drop logs `-- name;` under %s only: dropping a clone of an open span invents a close record, and the span's real close is logged again"
+               % sorted(t[:40] for t, v in g), fn=d.path)
